@@ -41,6 +41,34 @@ CHECKS = {
          "On every repository any process loads (after write_index, reload from disk, merge of concurrent operations' indexes, forced rebuild) has_id for all visible commits, is_ancestor for all pairs, heads and common_ancestors of drawn subsets and change-id resolution are compared with the graph read from the backend (graphs up to 70 commits).",
          "Generation numbers are not exposed by the Index trait and are not compared.",
          "§4 C18"),
+ "C23": ("wcsim", "exploration", "deterministic simulation of the working copy under a simulated coarse file-system clock (hook H3), seeded user-edit / jj-operation histories; oracle: snapshot tree == disk read by the harness",
+         "Seeded histories of user edits (write, same-size rewrite, delete, chmod, symlink, file<->directory swap, touch) interleaved with the real TreeState::snapshot / check_out / set_sparse_patterns / reload on tmpfs; after every snapshot the recorded tree must equal what the harness itself reads from disk (content after EOL normalisation, exec bit, symlink target, vanished paths, ignored-but-tracked rule), path by path. The clock advances only when the chooser says so, so clean-by-mtime and must-re-read paths both occur. One genuine defect found and repaired (directory with conflicted content replaced by a file).",
+         "Ignore patterns are limited to anchored literal forms; nested ignore files are not generated; one simulated process.",
+         "§3.4, §4 C23"),
+ "C24": ("wcsim", "exploration", "deterministic simulation of the working copy under a simulated coarse file-system clock (hook H3), seeded user-edit / jj-operation histories; oracle: disk == materialised tree, immediate snapshot identity, switch == fresh checkout",
+         "After every check_out of a generated tree (files, executables, symlinks, 3- and 5-term conflicts, file/directory replacement) the disk within the sparse patterns must equal the materialised tree (jj's own pure conflict materialiser as reference), an immediate snapshot in the same or next tick (with and without reloading the state) must return the identical tree ids, and the disk must equal a fresh checkout of the same tree into an empty workspace.",
+         "Conflict marker bytes come from jj's materialize_merge_result_to_bytes (trusted pure function, C05).",
+         "§4 C24"),
+ "C25": ("wcsim", "exploration", "deterministic simulation of the working copy under a simulated coarse file-system clock (hook H3), seeded user-edit / jj-operation histories; obstacle injection before checkouts",
+         "Before checkouts the simulated user drops untracked files exactly where the new tree adds a file, ignored files elsewhere, and a symlink to a directory outside the workspace where the tree adds a directory; afterwards obstacles must be byte-identical, a skipped path must be reported, nothing may appear outside the workspace, and every path the update does not touch must be unchanged.",
+         "Obstacle kinds are the three above; leftover empty directories are recognised as obstacles.",
+         "§4 C25"),
+ "C26": ("wcsim", "exploration", "deterministic simulation of the working copy under a simulated coarse file-system clock (hook H3), seeded user-edit / jj-operation histories; same-size edits placed in the tick of the state-file save",
+         "Same-size in-place rewrites of tracked files are placed after jj saved its state with the file's tick, the state file's tick and the edit's tick forced equal (coarse clock) or ordered; the next snapshot (with or without reload) must record the new content. Catches weakening of the mtime < own_mtime rule (sensitivity/c26_clean_check_le.diff).",
+         "Only placement (a) of the design (after the save) is asserted; edits inside a running jj operation are not simulated.",
+         "§4 C26"),
+ "C27": ("wcsim", "exploration", "deterministic simulation of the working copy under a simulated coarse file-system clock (hook H3), seeded user-edit / jj-operation histories; sparse-pattern changes interleaved with edits and snapshots",
+         "After each set_sparse_patterns the disk gains exactly the tree's files entering the patterns and loses those leaving, the working-copy tree ids stay identical, and later snapshots never change the tree value of a path outside the patterns.",
+         "The simulated user does not touch paths outside the patterns.",
+         "§4 C27"),
+ "C06": ("wcsim", "exploration", "deterministic simulation of the working copy under a simulated coarse file-system clock (hook H3), seeded user-edit / jj-operation histories; conflicted files forced to be re-read (same tick / touch)",
+         "Trees with 3- and 5-term file conflicts (redundant pairs, absent sides, exec differences) are checked out; with the clock forcing a re-read (same tick as the state file, or a touch) the snapshot must record the identical conflict value, unsimplified arity included (modulo jj's deliberate simplification of the merge of whole trees).",
+         "Edits confined to resolved regions of a conflict file are not generated yet.",
+         "§4 C06"),
+ "C29": ("wcsim", "exploration", "deterministic simulation of the working copy under a simulated coarse file-system clock (hook H3), seeded user-edit / jj-operation histories; EOL mode swarm",
+         "Under none / input / input-output conversion, text with LF, CRLF, missing final newline and binary content (NUL, lone CR) is written by the user and by checkouts; snapshots must store the normalised bytes and checkouts must write CRLF only for text under input-output, byte-identical otherwise (model mirrors eol.rs below the 8 KiB probe).",
+         "Contents stay below the 8 KiB probe boundary.",
+         "§4 C29"),
  "C21": ("tablesim", "exploration", "deterministic simulation: seeded baton scheduler over the table store's file-system primitives, crash and ineffective-lock faults, key/value reference model",
          "Seeded search over interleavings of 2-4 simulated processes (lock-less saves, locked saves, readers with reload) at the real TableStore's list/load/persist/add-head/remove-head/lock steps on tmpfs, with process crashes and ineffective locks; oracle is a map of completed saves (every completed save's entries present, later sequential save wins, heads never empty, reload does not change lookups). Sampling, not proof: the right level because the property quantifies over schedules the suite cannot control.",
          "Trusts: atomicity of readdir/create/unlink/rename as single steps; the hook points sit inside the primitives; HashMap order does not reach the event log (checked by the determinism sweep). Three known findings (known_findings.jsonl) are reported as KNOWN-FINDING and not as violations.",
@@ -48,6 +76,7 @@ CHECKS = {
 }
 
 ENGINES = {
+ "wcsim": ("sim/src/engines/wcsim.rs", "working copy vs. an editing user under a simulated coarse file-system clock"),
  "reposim": ("sim/src/engines/reposim.rs", "concurrent jj processes on one repository: baton scheduler at file-system primitives + crash / I/O error / lock / clock faults + model-based monitors"),
  "tablesim": ("sim/src/engines/tablesim.rs", "stacked tables under concurrent writers: baton scheduler + crash/lock faults"),
 }
